@@ -421,5 +421,5 @@ fn main() {
 }
 
 fn clock_default() -> sched::ClockModel {
-    sched::ClockModel { now: 0, freq: 1, read_step: 0, precision_override: None, overheads: [0; 4], quantum: 0 }
+    sched::ClockModel { now: 0, freq: 1, read_step: 0, precision_override: None, overheads: [0; 4], quantum: 0, overhead_measure_cost: 0 }
 }
